@@ -55,4 +55,20 @@ def regenerate(repo, th, svh=None):
            + "Definition excluded_names : list (list N) := [" + '; '.join(lst(e.encode()) for e in excluded) + "].\n")
     info['gen_Template.v'] = 'rewritten' if write_if_changed(os.path.join(th, 'gen_Template.v'), src) else 'unchanged'
     info['replace_chain'] = order
+    # --- registered expectation kinds (aliases) from RuleRegistry::default ---
+    reg = open(os.path.join(repo, 'src/rules/registry.rs')).read()
+    dflt = reg[reg.index('impl Default for RuleRegistry'):]
+    dflt = dflt[:dflt.index('#[cfg(test)]')] if '#[cfg(test)]' in dflt else dflt
+    regs = re.findall(r'\.register\(\s*(\w+)::make\s*,\s*&\[(.*?)\]\s*\)', dflt, re.S)
+    ids = {'EqualRule': 0, 'EqualNoEolRule': 1, 'EscapedRule': 2, 'GlobRule': 3, 'RegexRule': 4}
+    if not regs or any(r[0] not in ids for r in regs):
+        raise RuntimeError('cannot scrape RuleRegistry::default: %r' % regs)
+    ents = []
+    for rule, names_s in regs:
+        for nm in re.findall(r'"([^"]*)"', names_s):
+            ents.append('(%s, %d%%nat)' % (lst(nm.encode()), ids[rule]))
+    src = (HEADER + "From Coq Require Import List NArith.\nImport ListNotations.\nLocal Open Scope N_scope.\n\n"
+           "(* kind names accepted in ` (<kind><quantifier>)`, with the rule they make: 0 equal, 1 no-eol, 2 escaped, 3 glob, 4 regex *)\n"
+           "Definition kind_names : list (list N * nat) := [" + '; '.join(ents) + "].\n")
+    info['gen_Kinds.v'] = 'rewritten' if write_if_changed(os.path.join(th, 'gen_Kinds.v'), src) else 'unchanged'
     return info
